@@ -29,6 +29,7 @@ def run_pipelines(prop, tier, rng):
     import depccg.tools.reader as R
     from depccg.tools.ja.reader import read_ccgbank
     h = substrate.load(hook=True)
+    pf._strict[0] = False       # C19 is judged on what is rendered; score clauses belong to C09
     vecs, mr = tlc_pipelines()
     use = vecs if tier == 'thorough' else rng.sample(vecs, 60)
     ev_filter, ev_parse, ev_render = [], [], []
